@@ -66,8 +66,18 @@ def mk_cases(cid, nums, conns, kw, rng, origin, lo_shift=True):
             args = {"text": text, "flavour": flavour}
             if flavour == "plss":
                 block = rng.choice(BLOCKS)
-                args.update(prefix="T154N-R97W " if rng.random() < 0.7 else "Township 154 North, Range 97 West, ",
-                            suffix=": " + block, block=block)
+                # (the caller keeps one Config object for all its descriptions)
+                args["shared_cfg"] = True
+                if rng.random() < 0.3:
+                    # the other order of a description: block, sections, Twp/Rge
+                    args.update(prefix=block + " of ", suffix=", T154N-R97W", block=block)
+                    if rng.random() < 0.3:
+                        args["layout_kw"] = "desc_STR"
+                else:
+                    args.update(prefix="T154N-R97W " if rng.random() < 0.7 else "Township 154 North, Range 97 West, ",
+                                suffix=": " + block, block=block)
+                    if rng.random() < 0.3:
+                        args["layout_kw"] = "TRS_desc"
         cases.append({"id": "%s%s" % (cid, flavour[0] if flavour != "div_lots" else "d"), "kind": "c05", "origin": origin,
                       "abs": {"nums": ns, "conns": list(conns), "kw": [bool(x) for x in kw]},
                       "args": args})
@@ -166,6 +176,8 @@ def run(ctx):
                 # also in the layouts whose documented rendering has no colon
                 c["args"].update(prefix="", suffix=", T154N-R97W", block=c["args"]["block"])
                 c["args"]["text"] = c["args"]["block"] + " of " + c["args"]["text"]
+                if c["args"].get("layout_kw"):
+                    c["args"]["layout_kw"] = "desc_STR"
         rnd += rnd2
     check(ctx, rnd)
     ctx.rule = ("abstract lists (numbers, AND/THRU connectives, repeated-keyword flags) = all terminal states of "
